@@ -611,6 +611,10 @@ impl Model {
 
     pub fn block_connected(&mut self, block: VBlock, seg: &mut Segment) {
         let h = block.height;
+        // What the node said about a transaction before this block says nothing about it now (the block may bring the parent
+        // the transaction was missing): verdicts are remembered within the processing of one block, and between two blocks, but
+        // not across the arrival of a block.
+        self.memo.clear();
         // contiguity: the tower must be given the successor of its tip
         if let Some(tip) = self.view.last() {
             if block.prev != tip.hash || h != tip.height + 1 {
